@@ -6,7 +6,7 @@ from ..models import linktable, stencil, topo
 
 ID = "C03"
 NEEDS_SHIM = False
-BUDGET = {"quick": 2000, "thorough": 40000}
+BUDGET = {"quick": 2000, "thorough": 120000}
 MIN_EVALS = {"quick": 1500, "thorough": 30000}
 RULE = (
     "seeded random decompositions: a periodic or open rectangular domain of Kx x Ky in {1x1,2x1,1x2,3x1,2x2,3x2,2x3} "
@@ -25,7 +25,7 @@ ARR = [(1, 1), (2, 1), (1, 2), (3, 1), (2, 2), (3, 2), (2, 3)]
 def gen_case(rng, i, tier):
     Kx, Ky = rng.choice(ARR)
     per = rng.random() < 0.45 or (Kx, Ky) == (1, 1)
-    N = rng.randint(2, 5)
+    N = rng.randint(2, gen.deep(rng, tier, 5, 7, 0.15))
     T, t = topo.random_topo(rng, Kx, Ky, N, per, pool=(topo.D4 if rng.random() < 0.8 else [topo.D4[0]]))
     if T is None:
         return None
